@@ -492,7 +492,7 @@ proof { if k < ss.len() { assert(ss.take(k + 1).drop_last() =~= ss.take(k)); ass
     zov['block_expr_to_asg_type'].update(ret='r', spec=NONGLOBAL + 'ensures grows(*old(context), *final(context)),\n    ' + DECLS % ('block_synast', 'block_synast')
              + '\n    block_ok(block_synast.sp_statements(), r.statements@),     //@C06:block-holds-the-translations-of-its-statements-in-order')
     zov['block_or_stmt_to_asg_type'].update(ret='r', spec=NONGLOBAL + 'ensures grows(*old(context), *final(context)),\n    bors_ok(val, r),     //@C06:body-holds-the-translations-of-its-statements')
-    zov['bind_parameter_list'].update(ret='r', props=['C09', 'C07', 'C03'], loops={1: ITER('oq3_it1', '''
+    zov['bind_parameter_list'].update(ret='r', props=['C09', 'C07', 'C03', 'C13'], loops={1: ITER('oq3_it1', '''
     oq3_v1@.len() + oq3_it1.rest().len() == param_list.sp_params().len(),
     oq3_it1.rest() =~= param_list.sp_params().skip(oq3_v1@.len() as int),
     context.trace().len() == old(context).trace().len() + oq3_v1@.len(),
